@@ -100,6 +100,12 @@ theorem accepts_iff_productions (s : Str) : Accepted s ↔ Spec.Bnf.Sentence s :
 theorem productions_iff_automaton (s : Str) : Spec.Bnf.Sentence s ↔ Spec.classify s = .ok :=
   (accepts_iff_productions s).symm.trans (accepts_iff_grammar s)
 
+/-- everything the string writer produces from a conformant, non-empty history — in particular from any traversal —
+    has a derivation in the documented productions -/
+theorem writer_image_sentence (es : List Event) (h : ConformantNE es) : ∃ t, write? es = some t ∧ Spec.Bnf.Sentence t := by
+  obtain ⟨t, ht, ha⟩ := writer_image_accepted es h
+  exact ⟨t, ht, accepted_sentence ha⟩
+
 /-! non-vacuity: a derivation of `C(=O)1.N1` (branch with a bond, ring closure, split), and a string without one -/
 example : Spec.Bnf.Sentence ['C', '(', '=', 'O', ')', '1', '.', 'N', '1'] :=
   .smiles (k := .aliphatic .C) (r1 := ['(', '=', 'O', ')', '1', '.', 'N', '1']) rfl
